@@ -15,7 +15,7 @@ func genClassify(h *H) {
 	thorough := h.tier == "thorough"
 	rounds := 1
 	if thorough {
-		rounds = 6
+		rounds = 3
 	}
 	brands := []string{"", "KB", "KEYBASE", randBrand(h.rng, 40)}
 	for r := 0; r < rounds; r++ {
